@@ -114,11 +114,17 @@ func applyJSON(doc document.Document, entry interface{}) (result document.Docume
 	// stack when the document is serialized. Reject the direct case and apply the operations one at a time
 	// (each to the serialized result of the previous one, as RFC 6902 specifies) so that nothing stays shared.
 	for i := range jsonPatches {
-		if err := checkCopyIntoItself(jsonPatches[i]); err != nil {
+		kind, from, path, err := checkCopyIntoItself(jsonPatches[i])
+		if err != nil {
 			return nil, err
 		}
 
-		docBytes, err = jsonPatches[i : i+1].Apply(docBytes)
+		if kind == "copy" {
+			docBytes, err = applyCopy(docBytes, from, path)
+		} else {
+			docBytes, err = jsonPatches[i : i+1].Apply(docBytes)
+		}
+
 		if err != nil {
 			return nil, err
 		}
@@ -127,22 +133,61 @@ func applyJSON(doc document.Document, entry interface{}) (result document.Docume
 	return document.FromBytes(docBytes)
 }
 
-func checkCopyIntoItself(op map[string]*json.RawMessage) error {
-	var kind, from, path string
+// applyCopy performs a 'copy' operation through a detached intermediate: the value is first copied to a fresh
+// top-level member and the document is serialized (so the copy no longer shares anything with its source), then
+// the detached copy is moved to the target. The comparison of pointer strings in checkCopyIntoItself cannot
+// see that two differently spelled pointers (e.g. array index '0' and '00') address the same location; done this
+// way the target may lie inside the source without creating a cycle.
+func applyCopy(docBytes []byte, from, path string) ([]byte, error) {
+	var members map[string]json.RawMessage
+	if err := json.Unmarshal(docBytes, &members); err != nil {
+		return nil, err
+	}
 
+	tmp := "copy-intermediate"
+	for _, ok := members[tmp]; ok; _, ok = members[tmp] {
+		tmp += "_"
+	}
+
+	steps := []map[string]string{
+		{"op": "copy", "from": from, "path": "/" + tmp},
+		{"op": "move", "from": "/" + tmp, "path": path},
+	}
+
+	for _, step := range steps {
+		stepBytes, err := json.Marshal([]map[string]string{step})
+		if err != nil {
+			return nil, err
+		}
+
+		stepPatch, err := jsonpatch.DecodePatch(stepBytes)
+		if err != nil {
+			return nil, err
+		}
+
+		docBytes, err = stepPatch.Apply(docBytes)
+		if err != nil {
+			return nil, err
+		}
+	}
+
+	return docBytes, nil
+}
+
+func checkCopyIntoItself(op map[string]*json.RawMessage) (kind, from, path string, err error) {
 	for key, target := range map[string]*string{"op": &kind, "from": &from, "path": &path} {
 		if raw, ok := op[key]; ok && raw != nil {
-			if err := json.Unmarshal(*raw, target); err != nil {
-				return fmt.Errorf("invalid JSON patch operation member '%s'", key)
+			if e := json.Unmarshal(*raw, target); e != nil {
+				return "", "", "", fmt.Errorf("invalid JSON patch operation member '%s'", key)
 			}
 		}
 	}
 
 	if (kind == "copy" || kind == "move") && (path == from || strings.HasPrefix(path, from+"/")) {
-		return fmt.Errorf("JSON patch %s: path '%s' is inside from '%s'", kind, path, from)
+		return "", "", "", fmt.Errorf("JSON patch %s: path '%s' is inside from '%s'", kind, path, from)
 	}
 
-	return nil
+	return kind, from, path, nil
 }
 
 func applyRecover(replaceDoc interface{}) (document.Document, error) {
